@@ -19,6 +19,7 @@ import (
 	"os"
 	"sort"
 	"strings"
+	"sync"
 	"time"
 
 	"github.com/bartossh/Computantis/src/accountant"
@@ -78,6 +79,7 @@ type ledgerOp struct {
 	Cut   int    `json:"cut,omitempty"`   // stream corruption position
 	Kind  string `json:"kind,omitempty"`  // stream corruption kind
 	Times int    `json:"times,omitempty"` // repetition
+	At    int    `json:"at,omitempty"`    // truncate: start racing balance queries at this inspection of the context
 }
 
 type behaviour struct {
@@ -703,6 +705,24 @@ func (w *world) opCraft(op ledgerOp) {
 	w.emit(event{"a": "Craft", "new": []event{w.vtxRec(id)}})
 }
 
+// hookCtx is a context whose Done channel never closes; its at-th inspection runs a callback once.
+// Ledger walks inspect the context once per visited ancestor, so the callback runs in the middle of a walk,
+// while the operation holds its locks - without any hook inside the repository.
+type hookCtx struct {
+	context.Context
+	n    int
+	at   int
+	fire func()
+}
+
+func (c *hookCtx) Done() <-chan struct{} {
+	c.n++
+	if c.n == c.at && c.fire != nil {
+		c.fire()
+	}
+	return nil
+}
+
 func (w *world) opTruncate(op ledgerOp) {
 	n := w.nodes[op.N]
 	if n == nil {
@@ -711,10 +731,33 @@ func (w *world) opTruncate(op ledgerOp) {
 	var err error
 	var pv any
 	done := make(chan struct{})
+	ctx := context.Context(w.ctx)
+	type raced struct {
+		wl  string
+		b   accountant.Balance
+		err error
+	}
+	var races []*raced
+	var rwg sync.WaitGroup
+	if op.At > 0 {
+		// balance queries that start while the truncation is in the middle of a walk and holds the book lock
+		ctx = &hookCtx{Context: w.ctx, at: op.At, fire: func() {
+			for _, name := range w.cfg.Wallets {
+				r := &raced{wl: name}
+				races = append(races, r)
+				rwg.Add(1)
+				go func() {
+					defer rwg.Done()
+					r.b, r.err = n.ab.CalculateBalance(context.Background(), w.wallets[r.wl].Address())
+				}()
+			}
+			time.Sleep(3 * time.Millisecond)
+		}}
+	}
 	go func() {
 		defer close(done)
 		defer func() { pv = recover() }()
-		err = n.ab.VerifTruncate(w.ctx)
+		err = n.ab.VerifTruncate(ctx)
 	}()
 	select {
 	case <-done:
@@ -729,6 +772,20 @@ func (w *world) opTruncate(op ledgerOp) {
 		res = "error"
 	}
 	w.emitSt(event{"a": "Truncate", "n": op.N, "res": res}, n)
+	if op.At > 0 {
+		rwg.Wait()
+		for _, r := range races {
+			e := event{"a": "BalanceRaced", "n": op.N, "wl": r.wl, "res": "ok", "val": 0}
+			if r.err != nil {
+				e["res"] = "error"
+			} else if u, ok := w.toUnits(r.b.Spice); ok {
+				e["val"] = u
+			} else {
+				e["res"] = "nonunit"
+			}
+			w.emit(e)
+		}
+	}
 }
 
 func (w *world) opBalance(op ledgerOp) {
